@@ -1,5 +1,6 @@
 import MdIt.BlockMore
 import MdIt.BlockRef
+import MdIt.BlockTable
 import MdIt.InlineImage
 import MdIt.Core
 /-!
@@ -89,5 +90,20 @@ def parseInlineM (cls : QCls) (ext : IExt) (lx : LExt) (ic : ICfg) (mn : Int) (d
   match (if ic.inlineOn then coreInline (inlineOf cls ext lx ic mn d) [tok] else .ok [tok]) with
   | .error e => .error e
   | .ok ts => .ok (if ic.textJoinOn then textJoin ts else ts)
+
+end MdIt
+
+namespace MdIt
+
+/-- `MarkdownIt.parse(src, env)` with **all eleven block rules** (`tChain`: the `table` rule in the main chain and in the terminator
+    chains of `paragraph`, `reference`, `lheading`) and eleven of the twelve inline rules.  Result as for `fullParseR`. -/
+def fullParseT (cls : QCls) (ext : IExt) (lx : LExt) (tc : TCfg) (ic : ICfg) (ws : List Nat) (mn : Int) (d : Nat) (src : List Char) :
+    Except PyErr (List Tok × List (List Char × List Char × List Char) × List (List Char × List Char × List Char)) :=
+  match tParse ext lx tc ws mn src with
+  | .error e => .error e
+  | .ok s =>
+    match (if ic.inlineOn then coreInline (inlineOf cls ext (envAfter lx s) ic mn d) s.tokens else .ok s.tokens) with
+    | .error e => .error e
+    | .ok ts => .ok (if ic.textJoinOn then textJoin ts else ts, s.refs, s.dups)
 
 end MdIt
